@@ -131,13 +131,15 @@ inductive LoopEnd where
 
 /-- the caller loop `sbdf_ts_read` until a non-OK status, at most `fuel` calls. -/
 def readSlices (c : Cfg) (ncols : Nat) (subset : Option (List Bool)) (d : Array UInt8) :
-    Nat → Nat → List TS → (List TS × LoopEnd)
-  | 0, pos, acc => (acc.reverse, .fuel pos)
-  | fuel+1, pos, acc =>
+    Nat → Nat → (List TS × LoopEnd)
+  | 0, pos => ([], .fuel pos)
+  | fuel+1, pos =>
     match readTS c ncols subset d pos with
-    | .error e => (acc.reverse, .failed e)
-    | .ok (none, pos') => (acc.reverse, .tableEnd pos')
-    | .ok (some ts, pos') => readSlices c ncols subset d fuel pos' (ts :: acc)
+    | .error e => ([], .failed e)
+    | .ok (none, pos') => ([], .tableEnd pos')
+    | .ok (some ts, pos') =>
+      let r := readSlices c ncols subset d fuel pos'
+      (ts :: r.1, r.2)
 
 structure FileResult where
   fh : Except Fail (Nat × Nat)
@@ -146,15 +148,19 @@ structure FileResult where
   last : Option LoopEnd         -- how the slice loop ended
   deriving Repr
 
-/-- `sbdf_fh_read; sbdf_tm_read; sbdf_ts_read*` -/
-def readFile (c : Cfg) (subset : Option (List Bool)) (d : Array UInt8) : FileResult :=
+/-- `sbdf_fh_read; sbdf_tm_read; sbdf_ts_read*` with at most `fuel` slice reads -/
+def readFileF (c : Cfg) (subset : Option (List Bool)) (fuel : Nat) (d : Array UInt8) : FileResult :=
   match fhRead d 0 with
   | .error e => ⟨.error e, none, [], none⟩
   | .ok (v, pos) =>
     match readTM c d pos with
     | .error e => ⟨.ok v, some (.error e), [], none⟩
     | .ok (tm, pos') =>
-      let r := readSlices c tm.cols.length subset d (d.size + 8) pos' []
+      let r := readSlices c tm.cols.length subset d fuel pos'
       ⟨.ok v, some (.ok tm), r.1, some r.2⟩
+
+/-- the bound both drivers use: the file length plus 8 calls -/
+def readFile (c : Cfg) (subset : Option (List Bool)) (d : Array UInt8) : FileResult :=
+  readFileF c subset (d.size + 8) d
 
 end Sbdf
